@@ -21,7 +21,7 @@ Has(r, f) == f \in DOMAIN r
 Want(p) == Prop = "ALL" \/ Prop = p
 
 TInit == /\ i = 1 /\ err = "" /\ cstreak = 0 /\ compacted = FALSE
-         /\ meta = [T |-> 0, idle |-> 1, ntab |-> 1, len |-> 0, maxe |-> 0, seq |-> 0]
+         /\ meta = [T |-> 0, idle |-> 1, ntab |-> 1, len |-> 0, maxe |-> 0, seq |-> 0, wcur |-> 0, wmax |-> 0]
          /\ m = <<>> /\ d = <<>>
 
 Ev == Trace[i]
@@ -34,7 +34,7 @@ Step == i' = i + 1
 
 Reset == /\ Ev.t = "reset"
          /\ AbsReset(ToSet(Ev.keys))
-         /\ meta' = [T |-> Ev.T, idle |-> Ev.idle, ntab |-> 1, len |-> 0, maxe |-> Ev.maxe, seq |-> Ev.seq]
+         /\ meta' = [T |-> Ev.T, idle |-> Ev.idle, ntab |-> 1, len |-> 0, maxe |-> Ev.maxe, seq |-> Ev.seq, wcur |-> 0, wmax |-> 0]
          /\ cstreak' = 0 /\ compacted' = FALSE /\ Ok
 
 \* size classes (C17): an entry is stored iff it fits an empty table
@@ -46,7 +46,9 @@ Put == /\ Ev.t = "put"
           ELSE /\ UNCHANGED <<m, d>>
                /\ IF Want("C11") /\ (Fitting(Ev.sz) \/ Ev.err # "toolarge")
                   THEN Fail("put failed: " \o Ev.err) ELSE Ok
-       /\ cstreak' = 0 /\ compacted' = FALSE /\ UNCHANGED meta
+       \* bytes written since the last completed compaction (C20, stores that keep recycled tables)
+       /\ cstreak' = 0 /\ compacted' = FALSE
+       /\ meta' = IF Ev.err = "ok" THEN [meta EXCEPT !.wcur = @ + Ev.sz] ELSE meta
 
 Del == /\ Ev.t = "del" /\ AbsDelete(Ev.k)
        /\ IF Want("C11") /\ Ev.err # "ok" THEN Fail("delete failed") ELSE Ok
@@ -65,7 +67,9 @@ Compact == /\ Ev.t = "compact" /\ AbsCompact
            /\ compacted' = Ev.done
            /\ LET nt == IF cstreak = 0 THEN Ev.ntab ELSE meta.ntab
                   ln == IF cstreak = 0 THEN Ev.len ELSE meta.len IN
-              /\ meta' = [meta EXCEPT !.ntab = nt, !.len = ln]
+              /\ meta' = [meta EXCEPT !.ntab = nt, !.len = ln,
+                                       !.wmax = IF Ev.done /\ meta.wcur > meta.wmax THEN meta.wcur ELSE meta.wmax,
+                                       !.wcur = IF Ev.done THEN 0 ELSE meta.wcur]
               /\ IF (Want("C11") \/ Want("C20")) /\ Ev.err # "ok" THEN Fail("compaction error")
                  ELSE IF (Want("C11") \/ Want("C20")) /\ cstreak + 1 > nt + (ln \div 1000) + 2
                       THEN Fail("compaction does not complete")
@@ -108,6 +112,10 @@ StatsOK == /\ Ev.stats.allocated = Ev.stats.numtables * meta.T
            /\ Ev.stats.garbage >= 0
 BoundOK == (compacted /\ meta.idle = 0) =>
               60 * Ev.stats.allocated <= 100 * (LiveBytes + 2 * meta.T + Ev.stats.numtables * meta.maxe)
+\* a store that keeps its recycled tables for a long time re-uses them: after compaction it holds at most the live data plus
+\* the tables that the largest burst of writes between two compactions needed (they are kept, empty, for the next burst)
+BoundIdleOK == (compacted /\ meta.idle # 0) =>
+              60 * Ev.stats.allocated <= 100 * (LiveBytes + meta.wmax + 3 * meta.T + Ev.stats.numtables * meta.maxe)
 
 Obs == /\ Ev.t = "obs" /\ UNCHANGED <<m, d, cstreak, compacted>>
        /\ meta' = [meta EXCEPT !.ntab = Ev.stats.numtables, !.len = Ev.stats.length]
@@ -118,6 +126,7 @@ Obs == /\ Ev.t = "obs" /\ UNCHANGED <<m, d, cstreak, compacted>>
           ELSE IF Want("C12") /\ ~ScanOK THEN Fail("scan incomplete, non-terminating or yields an absent key")
           ELSE IF Want("C20") /\ ~StatsOK THEN Fail("storage accounting is off")
           ELSE IF Want("C20") /\ ~BoundOK THEN Fail("allocation not bounded after compaction")
+          ELSE IF Want("C20") /\ ~BoundIdleOK THEN Fail("recycled tables pile up instead of being re-used")
           ELSE Ok
 
 TNext == /\ i <= Len(Trace) /\ Step
